@@ -15,6 +15,9 @@ CLAIM = (
     "order; (3) quantifiers are preserved: a quantified character or set is wrapped in a Group that carries term.quantifier, an "
     "unquantified one yields terms without quantifier; (4) visit_concatenation rewrites both character-bearing term kinds and recurses "
     "into every new term; (5) fix_pattern_for_utf16 runs parse -> fix -> render in that order."
+    " COMPL-GUARD: the parser's rejection of complementing sets agrees, on the boundary samples around U+10000, with the rewriter's "
+    "classification of ranges (so the rewriter's `should have been detected before` assertion is unreachable); PRE-SURR: every range that "
+    "reaches _convert_to_surrogates starts in a supplementary plane (straddling ranges are split first)."
     " SKIPS: the loops of the functions in scope have no more `continue`, `break` or in-loop `return` statements than the reference "
     "read on the unchanged tree (baselines/skips.json): a new skip means elements that were handled are no longer handled."
 )
@@ -110,6 +113,10 @@ def run(ctx) -> None:
     else:
         ctx.fail("VISIT", vc, vc.node, "the rewritten terms are not stored back / not visited recursively (nested groups keep astral characters)", construct="visit_concatenation recursion")
     seq.check_sequence(ctx, p.func("jsonschema.main:fix_pattern_for_utf16"), "SEQ", ["parse", "fix_for_utf16_regex_in_place", "render"], lambda n: n.kind == "return")
+    ctx.rule("COMPL-GUARD", "the parser rejects a complementing set exactly when the rewriter would find a range outside the BMP", floor=1)
+    ctx.rule("PRE-SURR", "only ranges starting at or above U+10000 reach _convert_to_surrogates", floor=1)
+    _check_complement_guard(ctx)
+    _check_surrogate_precondition(ctx)
     ctx.rule("SKIPS", "the loops of the functions in scope have no more continue/break/return-in-loop statements than the reference read on the unchanged tree", floor=2)
     from ..rules import skips as _skips
     _base = _skips.load_baseline()
@@ -238,3 +245,159 @@ def _check_quant(ctx, cls) -> None:
         ctx.ok("QUANT", e, e.node, what="expanded set -> Term(Group(union), quantifier=term.quantifier)")
     else:
         ctx.fail("QUANT", e, e.node, "the expanded character set does not carry term.quantifier on the enclosing group", construct="quantified set")
+
+
+def _eval_pred(e: ast.AST, env: Dict[str, Any], consts: Dict[str, int]) -> Any:
+    """Evaluate a boolean/ordering expression of the analysed source on sample values: ``ord(<x>.start.character)`` and
+    ``ord(<x>.end.character)`` read env['start'] / env['end'], ``<x>.end`` reads env['end'] (None allowed), names of integer
+    constants read ``consts``.  Anything else raises KeyError (the predicate is then not comparable)."""
+    if isinstance(e, ast.BoolOp):
+        # short-circuit, like Python: ``x.end is None or ord(x.end.character) < S``
+        for v in e.values:
+            r = bool(_eval_pred(v, env, consts))
+            if isinstance(e.op, ast.And) and not r:
+                return False
+            if isinstance(e.op, ast.Or) and r:
+                return True
+        return isinstance(e.op, ast.And)
+    if isinstance(e, ast.UnaryOp) and isinstance(e.op, ast.Not):
+        return not _eval_pred(e.operand, env, consts)
+    if isinstance(e, ast.Compare) and len(e.ops) == 1:
+        a, b = _eval_pred(e.left, env, consts), _eval_pred(e.comparators[0], env, consts)
+        op = e.ops[0]
+        if isinstance(op, ast.Is):
+            return a is b
+        if isinstance(op, ast.IsNot):
+            return a is not b
+        if a is None or b is None:
+            raise KeyError("ordering with None")
+        return {ast.Lt: a < b, ast.LtE: a <= b, ast.Gt: a > b, ast.GtE: a >= b, ast.Eq: a == b, ast.NotEq: a != b}[type(op)]
+    if isinstance(e, ast.Constant):
+        return e.value
+    if isinstance(e, ast.Call) and dotted_of(e.func) == "ord" and e.args:
+        d = ast.unparse(e.args[0])
+        for k in ("start", "end"):
+            if d.endswith(f".{k}.character"):
+                return env[k]
+        raise KeyError(d)
+    d = dotted_of(e)
+    if d is not None:
+        if d.endswith(".end"):
+            return env["end"]
+        if d.endswith(".start"):
+            return env["start"]
+        tail = d.split(".")[-1]
+        if tail in consts:
+            return consts[tail]
+    raise KeyError(ast.unparse(e))
+
+
+def _check_complement_guard(ctx) -> None:
+    """The rewriter asserts that a complementing set has no range outside the BMP ("should have been detected before");
+    the parser's rejection of complementing sets must therefore be exactly the negation of the rewriter's `range is
+    inside the BMP` classification - decided by evaluating both predicates of the source on boundary samples."""
+    p = ctx.p
+    fx = p.func("parse.retree._fix:_FixForUTF16Regex._expand_char_set_to_surrogates_if_necessary")
+    ps = p.func("parse.retree._parse:_parse_concatenation")
+    consts = {}
+    for modkey, holder in (("parse.retree._parse", None), ("parse.retree._fix", "_FixForUTF16Regex")):
+        m = p.module(modkey)
+        src = m.constants if holder is None else p.cls(f"{modkey}:{holder}").assigns
+        for k, v in src.items():
+            if isinstance(v, ast.Constant) and isinstance(v.value, int):
+                if k in consts and consts[k] != v.value:
+                    ctx.fail("COMPL-GUARD", m, v, f"the constant {k} differs between the parser ({consts[k]:#x}) and the rewriter ({v.value:#x})", construct=f"constant {k}")
+                consts.setdefault(k, v.value)
+    # rewriter: the test that sends a range to ranges_wo_utf32
+    wo = None
+    for n in walk_function_body(fx.node):
+        if isinstance(n, ast.If) and any(isinstance(c, ast.Call) and dotted_of(c.func) == "ranges_wo_utf32.append" and c.args and dotted_of(c.args[0]) == "a_range" for s in n.body for c in ast.walk(s)):
+            wo = n
+            break
+    ctx.require_anchor(wo is not None, "the rewriter classifies ranges into ranges_wo_utf32")
+    # parser: the test inside the `[^` arm whose body returns an Error
+    rej = None
+    for n in walk_function_body(ps.node):
+        if isinstance(n, ast.If) and any(isinstance(c, ast.Constant) and c.value == "[^" for c in ast.walk(n.test)):
+            for m2 in ast.walk(n):
+                if isinstance(m2, ast.If) and m2 is not n and "SUPPLEMENTARY" in ast.unparse(m2.test) and any(isinstance(r, ast.Return) for r in ast.walk(m2)):
+                    rej = m2
+    ctx.require_anchor(rej is not None, "the parser rejects complementing sets with ranges outside the BMP")
+    S0 = consts.get("_SUPPLEMENTARY_PLANE_START")
+    ctx.require_anchor(S0 is not None, "_SUPPLEMENTARY_PLANE_START is an integer constant")
+    bad = None
+    n = 0
+    for start in (0x41, S0 - 1, S0, S0 + 1):
+        for end in (None, S0 - 1, S0, S0 + 1, 0x10FFFF):
+            if end is not None and end < start:
+                continue
+            env = {"start": start, "end": end}
+            try:
+                inside = _eval_pred(wo.test, env, consts)
+                rejected = _eval_pred(rej.test, env, consts)
+            except KeyError as ex:
+                ctx.fail("COMPL-GUARD", ps, rej, f"the two predicates are not comparable ({ex})", construct="complement guard comparable")
+                return
+            n += 1
+            if bool(rejected) == bool(inside) and bad is None:
+                bad = (start, end, inside, rejected)
+    if bad is None:
+        ctx.ok("COMPL-GUARD", ps, rej, what=f"a complementing set is rejected exactly when the rewriter would find a range outside the BMP ({n} boundary samples around U+10000)")
+    else:
+        start, end, inside, rejected = bad
+        rng = f"U+{start:04X}" + (f"-U+{end:04X}" if end is not None else "")
+        ctx.fail("COMPL-GUARD", ps, rej,
+                 f"for the range {rng} in a complementing set the parser {'rejects' if rejected else 'accepts'} while the rewriter classifies the range as "
+                 f"{'inside' if inside else 'outside'} the BMP: an accepted pattern reaches the rewriter's assertion `should have been detected before`",
+                 construct="complement guard agrees with the rewriter")
+
+
+def _check_surrogate_precondition(ctx) -> None:
+    """``_convert_to_surrogates`` requires a code point of a supplementary plane.  Every range appended to ranges_w_utf32 must
+    start there: it is either appended under guards that imply `start >= U+10000`, or constructed with a constant start."""
+    p = ctx.p
+    fx = p.func("parse.retree._fix:_FixForUTF16Regex._expand_char_set_to_surrogates_if_necessary")
+    from ..rules import schema as S
+
+    parents = S.parents_of(fx)
+    consts = {k: v.value for k, v in p.cls("parse.retree._fix:_FixForUTF16Regex").assigns.items() if isinstance(v, ast.Constant) and isinstance(v.value, int)}
+    S0 = consts.get("_SUPPLEMENTARY_PLANE_START")
+    ctx.require_anchor(S0 is not None, "_SUPPLEMENTARY_PLANE_START in the rewriter")
+    apps = [c for c in ast.walk(fx.node) if isinstance(c, ast.Call) and dotted_of(c.func) == "ranges_w_utf32.append" and c.args]
+    ctx.require_anchor(len(apps) >= 1, "ranges_w_utf32.append in the rewriter")
+    for c in apps:
+        arg = c.args[0]
+        what = f"`{short(c, 60)}`: the range starts at or above U+10000"
+        if isinstance(arg, ast.Name):
+            guards = S.guards_of(c, parents)
+            ok = True
+            witness = None
+            for start in (0x41, S0 - 1, S0, S0 + 1):
+                for end in (None, S0 - 1, S0, S0 + 1, 0x10FFFF):
+                    if end is not None and end < start:
+                        continue
+                    env = {"start": start, "end": end}
+                    holds = True
+                    for t, pol in guards:
+                        try:
+                            if bool(_eval_pred(t, env, consts)) != pol:
+                                holds = False
+                                break
+                        except KeyError:
+                            continue  # a guard about something else
+                    if holds and start < S0:
+                        ok = False
+                        witness = (start, end)
+            if ok:
+                ctx.ok("PRE-SURR", fx, c, what=what + " (implied by the guards)")
+            else:
+                ctx.fail("PRE-SURR", fx, c, f"a range starting at U+{witness[0]:04X}" + (f" and ending at U+{witness[1]:04X}" if witness[1] is not None else "") + " reaches ranges_w_utf32; its start is then handed to _convert_to_surrogates, whose precondition requires U+10000..U+10FFFF: ViolationError instead of a rewritten pattern", construct="range below U+10000 among the astral ranges")
+        elif isinstance(arg, ast.Call) and (dotted_of(arg.func) or "").endswith("Range"):
+            st = next((k.value for k in arg.keywords if k.arg == "start"), None)
+            txt = ast.unparse(st) if st is not None else ""
+            if "_SUPPLEMENTARY_PLANE_START" in txt and "- 1" not in txt and "-1" not in txt:
+                ctx.ok("PRE-SURR", fx, c, what=what + " (constructed at the plane start)")
+            else:
+                ctx.fail("PRE-SURR", fx, c, f"the constructed range starts at `{txt}`, not at the start of the supplementary planes", construct="constructed astral range start")
+        else:
+            ctx.fail("PRE-SURR", fx, c, "cannot see where the appended range starts", construct="astral range start unknown")
